@@ -43,6 +43,10 @@ class _Sub:
         if rule in self.keep:
             return self.chk.check(cond, rule, *a, **k)
         return cond
+    def anchor(self, cond, rule, *a, **k):
+        if rule in self.keep:
+            return self.chk.anchor(cond, rule, *a, **k)
+        return cond
     def ok(self, rule, *a, **k):
         if rule in self.keep: self.chk.ok(rule, *a, **k)
     def violation(self, rule, *a, **k):
